@@ -37,9 +37,32 @@ def h1(cx):
     ok = isinstance(v, ast.Call) and norm(v.func) == "self._xobject.__class__" and norm(v.args[0]) == "self._xobject" and {k.arg: norm(k.value) for k in v.keywords} == {"_context": "_context", "_buffer": "_buffer", "_offset": "_offset"}
     cx.check(ok, rebuild[0], construct=short(rebuild[0], 130), detail="copy-construction of the same struct class at the target", bad_detail="move does not copy-construct the struct at the requested target", sub="rebuild")
     cp = m.func(f"{HC}.copy")
-    src = norm(cp)
-    ok = "self._XoStruct(self._xobject, _context=_context, _buffer=_buffer, _offset=_offset)" in src and "return self.__class__(_xobject=xobject)" in src
-    cx.check(ok, cp, construct="copy: new struct copy-constructed from self._xobject, dressed by a new hybrid object", detail="copy never returns or re-dresses the original storage", bad_detail="copy does not build a fresh copy-constructed struct", sub="copy")
+    dcp = Defs(cp)
+
+    def res(e, depth=0):
+        while isinstance(e, ast.Name) and depth < 5:
+            d1 = dcp.single(e.id)
+            if d1 is None:
+                break
+            e, depth = d1, depth + 1
+        return e
+
+    rets = [r_ for r_ in own_nodes(cp) if isinstance(r_, ast.Return)]
+    cx.need(len(rets) >= 1, "HybridClass.copy: no return")
+    ok = True
+    why = ""
+    for r_ in rets:
+        v = res(r_.value)
+        good = isinstance(v, ast.Call) and norm(v.func) in ("self.__class__", "type(self)") and not v.args and [k.arg for k in v.keywords] == ["_xobject"]
+        if not good:
+            ok, why = False, f"copy returns `{short(r_.value, 60)}`, which is not a new hybrid object dressing a new struct"
+            continue
+        xo = res(v.keywords[0].value)
+        good = (isinstance(xo, ast.Call) and norm(xo.func) in ("self._XoStruct", "self._xobject.__class__") and len(xo.args) == 1 and norm(xo.args[0]) == "self._xobject"
+                and {k.arg: norm(k.value) for k in xo.keywords} == {"_context": "_context", "_buffer": "_buffer", "_offset": "_offset"})
+        if not good:
+            ok, why = False, f"the struct handed to the new object is `{short(xo, 80)}`, not a copy-construction of self._xobject at the requested placement"
+    cx.check(ok, cp, construct="copy: new struct copy-constructed from self._xobject, dressed by a new hybrid object", detail="copy never returns or re-dresses the original storage", bad_detail=why or "copy does not build a fresh copy-constructed struct", sub="copy")
 
 
 @rule("H2", ["C18"], "a hybrid object stored in another becomes non-movable; the dressed child views the container's field")
@@ -96,23 +119,66 @@ def h2(cx):
     cx.check(ok, r, construct="_reinit_from_xobject: child = DressingClass(_xobject=getattr(_xobject, ff.name)) for every nested hybrid field", detail="nested dressed parts view the (possibly relocated) struct", bad_detail="nested dressed parts are not rebuilt from the new xobject", sub="reinit")
 
 
-BOUND = ("_xobject", "_dressed_*")
+BOUND = ("_xobject", "_dressed_<nested>", "_dressed_<ref>")
 
 
-@rule("H6", ["C18"], "bulk copies of python attributes between hybrid handles never leave storage-bound attributes (_xobject, _dressed_<field>) of the source in the destination")
+def _reinit_revalidates(m, cx=None):
+    """what `_reinit_from_xobject` re-derives on the handle it is called on: `_xobject` (assigned first), the dressed
+    child of every nested hybrid field (rebuilt from `getattr(_xobject, ff.name)`), and -- only if the validation
+    branch exists -- the dressed object kept for a reference field (dropped unless it views the referent)."""
+    r = m.func(f"{HC}._reinit_from_xobject")
+    got = set()
+    src = norm(r)
+    if any(isinstance(x, ast.Assign) and norm(x.targets[0]) == "self._xobject" and norm(x.value) == "_xobject" for x in r.body):
+        got.add("_xobject")
+    if "ff.ftype._DressingClass(_xobject=getattr(_xobject, ff.name))" in src and "for ff in self._XoStruct._fields" in src:
+        got.add("_dressed_<nested>")
+    # validation branch: a `del self.__dict__['_dressed_' + ff.name]` (or pop/delattr) guarded by a disjunction that is
+    # true whenever buffer or offset of the referent differ from the dressed object's
+    fl = Flow(r)
+    for st in own_nodes(r):
+        drops = False
+        if isinstance(st, ast.Delete) and any("'_dressed_' + ff.name" in norm(t) for t in st.targets):
+            drops = True
+        if isinstance(st, ast.Expr) and isinstance(st.value, ast.Call) and call_name(st.value) in ("pop", "delattr") and "'_dressed_' + ff.name" in norm(st.value):
+            drops = True
+        if not drops:
+            continue
+        conds = [c for c in fl.conds_at(st) if c.kind == "if"]
+        txt = " ; ".join(c.text() for c in conds)
+        has_ref_kind = "isinstance(ff.ftype, Ref)" in txt or "_reftype" in txt
+        guard = conds[-1] if conds else None
+        ok = False
+        if guard is not None and guard.pol and isinstance(guard.test, ast.BoolOp) and isinstance(guard.test.op, ast.Or):
+            parts = [norm(v) for v in guard.test.values]
+            buf = any(("_buffer is not " in q or "_buffer != " in q) for q in parts)
+            off = any(("_offset != " in q) for q in parts)
+            ok = buf and off
+        if ok and has_ref_kind:
+            got.add("_dressed_<ref>")
+    return got
+
+
+@rule("H6", ["C18", "C09"], "bulk copies of python attributes between hybrid handles never leave storage-bound attributes (_xobject, _dressed_<field>) of the source in the destination")
 def h6(cx):
-    """`_xobject` and every `_dressed_<field>` of a hybrid handle VIEW storage.  Two sites copy a whole `__dict__`
-    from one handle to another (to keep pure-python attributes): the copy arm of `_FieldOfDressed.__set__` and
-    `_reinit_from_xobject`.  Whatever storage-bound attribute such a copy may overwrite in the destination must be
-    derived again from the destination's own storage afterwards, otherwise a nested part keeps viewing the source:
-    reads/writes through `outer.mid.leaf` then go to another object's memory (PF22, seeded C18-a)."""
+    """`_xobject` and every `_dressed_<field>` of a hybrid handle VIEW storage.  Several sites copy a whole `__dict__`
+    from one handle to another (to keep pure-python attributes).  Whatever storage-bound attribute such a copy may
+    bring into the destination must be derived again / validated against the destination's own storage afterwards,
+    otherwise a nested part or a dressed referent keeps viewing the source: reads/writes through `outer.mid.leaf` or
+    `copy.ref` then go to another object's memory (PF22, PF23, seeded C18-a / C09-b).
+    A freshly constructed handle has `_xobject` and `_dressed_<nested>`, but NOT `_dressed_<ref>` (reference fields
+    are not re-dressed), so an 'only absent keys' copy can still import a dressed referent."""
     m = cx.m
+    reval = _reinit_revalidates(m)
+    r = m.func(f"{HC}._reinit_from_xobject")
+    cx.check(set(BOUND) <= reval, r, construct=f"_reinit_from_xobject re-derives / validates {sorted(reval)}", detail="_xobject set, nested parts rebuilt from it, dressed referents dropped unless they view the referent (same buffer and offset)",
+             bad_detail=f"_reinit_from_xobject does not re-derive / validate {sorted(set(BOUND) - reval)}: a dressed object copied from another handle keeps viewing that handle's memory", sub="validate")
     sites = 0
     for fn in m.all_functions("hybrid_class"):
         fl = None
         for node in own_nodes(fn):
             dst = src = None
-            over = None  # set of bound key classes the copy may overwrite
+            over = None  # set of bound key classes the copy may bring from the source
             site = None
             if isinstance(node, ast.Call) and call_name(node) == "update" and isinstance(node.func, ast.Attribute) and norm(node.func.value).endswith(".__dict__") and node.args and norm(node.args[0]).endswith(".__dict__"):
                 dst, src = norm(node.func.value)[:-9], norm(node.args[0])[:-9]
@@ -123,68 +189,160 @@ def h6(cx):
                 src = it.split(".__dict__")[0]
                 kname = norm(node.target.elts[0]) if isinstance(node.target, ast.Tuple) else norm(node.target)
                 stores = [x for x in ast.walk(node) if isinstance(x, ast.Assign) and isinstance(x.targets[0], ast.Subscript) and norm(x.targets[0].value).endswith(".__dict__") and norm(x.targets[0].slice) == kname]
-                stores += [fl_ for fl_ in ast.walk(node) if isinstance(fl_, ast.Call) and call_name(fl_) == "setattr" and len(fl_.args) == 3 and norm(fl_.args[1]) == kname]
+                stores += [c_ for c_ in ast.walk(node) if isinstance(c_, ast.Call) and call_name(c_) == "setattr" and len(c_.args) == 3 and norm(c_.args[1]) == kname]
                 if not stores:
                     continue
                 st0 = stores[0]
                 dst = norm(st0.targets[0].value)[:-9] if isinstance(st0, ast.Assign) else norm(st0.args[0])
                 over = set(BOUND)
                 fl = fl or Flow(fn)
-                for c in fl.conds_at(st0 if isinstance(st0, ast.Assign) else fl.stmt(st0)):
-                    if c.kind != "if":
-                        continue
-                    t, pol = c.test, c.pol
+
+                def apply_guard(t, pol):
+                    nonlocal over
                     if isinstance(t, ast.UnaryOp) and isinstance(t.op, ast.Not):
-                        t, pol = t.operand, not pol
+                        return apply_guard(t.operand, not pol)
+                    if isinstance(t, ast.BoolOp) and isinstance(t.op, ast.And) and pol:
+                        for v in t.values:
+                            apply_guard(v, True)
+                        return
                     txt = norm(t)
+                    if kname not in txt:
+                        return
                     if isinstance(t, ast.Compare) and len(t.ops) == 1 and norm(t.left) == kname:
                         rhs = norm(t.comparators[0])
                         absent = (isinstance(t.ops[0], ast.NotIn) and pol) or (isinstance(t.ops[0], ast.In) and not pol)
+                        differs = (isinstance(t.ops[0], ast.NotEq) and pol) or (isinstance(t.ops[0], ast.Eq) and not pol)
                         if absent and rhs in (f"{dst}.__dict__", f"{dst}.__dict__.keys()"):
-                            # only keys the destination does not have yet: a freshly constructed handle has every bound key
-                            over = set()
-                        elif ((isinstance(t.ops[0], ast.NotEq) and pol) or (isinstance(t.ops[0], ast.Eq) and not pol)) and rhs == "'_xobject'":
-                            over.discard("_xobject")
-                        elif absent and isinstance(t.comparators[0], (ast.Tuple, ast.List, ast.Set)):
+                            # keys the destination lacks: a fresh handle has _xobject and its nested parts, not dressed referents
+                            over -= {"_xobject", "_dressed_<nested>"}
+                            return
+                        if differs and isinstance(t.comparators[0], ast.Constant) and isinstance(t.comparators[0].value, str):
+                            if t.comparators[0].value == "_xobject":
+                                over.discard("_xobject")
+                            return  # excluding some other single key does not protect a bound key
+                        if absent and isinstance(t.comparators[0], (ast.Tuple, ast.List, ast.Set)):
                             for e in t.comparators[0].elts:
                                 if isinstance(e, ast.Constant) and e.value == "_xobject":
                                     over.discard("_xobject")
-                        else:
-                            raise AnalysisError(f"[H6] guard `{txt}` on an attribute copy loop not understood")
-                    elif isinstance(t, ast.Call) and norm(t.func) == f"{kname}.startswith" and t.args and isinstance(t.args[0], ast.Constant):
-                        if t.args[0].value == "_dressed_" and not pol:
-                            over.discard("_dressed_*")
-                        elif t.args[0].value == "_" and not pol:
+                            return
+                    if isinstance(t, ast.Call) and norm(t.func) == f"{kname}.startswith" and t.args and isinstance(t.args[0], ast.Constant):
+                        if not pol and t.args[0].value == "_dressed_":
+                            over -= {"_dressed_<nested>", "_dressed_<ref>"}
+                            return
+                        if not pol and t.args[0].value == "_":
                             over = set()
-                        else:
-                            raise AnalysisError(f"[H6] guard `{txt}` on an attribute copy loop not understood")
-                    elif kname in txt:
-                        raise AnalysisError(f"[H6] guard `{txt}` on an attribute copy loop not understood")
+                            return
+                    raise AnalysisError(f"[H6] guard `{txt}` on an attribute copy loop not understood")
+
+                for c in fl.conds_at(st0 if isinstance(st0, ast.Assign) else fl.stmt(st0)):
+                    if c.kind == "if":
+                        apply_guard(c.test, c.pol)
                 site = node
             if site is None:
                 continue
             sites += 1
             fl = fl or Flow(fn)
             st = fl.stmt(site) if not isinstance(site, ast.stmt) else site
-            if over == set() and isinstance(site, ast.For):
-                # relies on the destination being freshly constructed (constructor dresses every nested field)
-                ctor = [a for a in own_nodes(fn) if isinstance(a, ast.Assign) and norm(a.targets[0]) == dst and isinstance(a.value, ast.Call) and any(k.arg == "_xobject" for k in a.value.keywords) and fl.ordered_before(a, st)]
-                cx.check(len(ctor) >= 1, site, construct=f"{fn.name}: copy loop {src}.__dict__ -> {dst}.__dict__, only keys absent from `{dst}`", detail=f"`{dst}` was just built from its own _xobject, so _xobject and every _dressed_<field> are present and kept",
-                         bad_detail=f"`{dst}` is not freshly built from its own _xobject before the copy: absent storage-bound attributes are taken from `{src}`")
-                continue
-            # re-derivations after the copy, on the same paths
-            base = {id(c.test) for c in fl.conds_at(st)}
+            if isinstance(site, ast.For) and "_xobject" not in over and "_dressed_<nested>" not in over:
+                # relies on the destination being freshly constructed from its own _xobject
+                ctor = [a_ for a_ in own_nodes(fn) if isinstance(a_, ast.Assign) and norm(a_.targets[0]) == dst and isinstance(a_.value, ast.Call) and any(k.arg == "_xobject" for k in a_.value.keywords) and fl.ordered_before(a_, st)]
+                if not ctor:
+                    over |= {"_xobject", "_dressed_<nested>"}
+            base = {id(c.test) for c in fl.conds_at(st) if c.kind == "if"}
             redo = set()
-            for a in own_nodes(fn):
-                if isinstance(a, ast.Assign) and norm(a.targets[0]) == f"{dst}._xobject" and fl.ordered_before(st, a) and {id(c.test) for c in fl.conds_at(a)} <= base:
+            how = []
+            for a_ in own_nodes(fn):
+                if isinstance(a_, ast.Assign) and norm(a_.targets[0]) == f"{dst}._xobject" and fl.ordered_before(st, a_) and {id(c.test) for c in fl.conds_at(a_) if c.kind == "if"} <= base:
                     redo.add("_xobject")
-                if isinstance(a, ast.Call) and norm(a.func) == f"{dst}._reinit_from_xobject" and fl.ordered_before(st, fl.stmt(a)) and {id(c.test) for c in fl.conds_at(fl.stmt(a))} <= base:
-                    redo |= set(BOUND)
+                    how.append(f"{dst}._xobject = ...")
+                if isinstance(a_, ast.Call) and norm(a_.func) == f"{dst}._reinit_from_xobject" and fl.ordered_before(st, fl.stmt(a_)) and {id(c.test) for c in fl.conds_at(fl.stmt(a_)) if c.kind == "if"} <= base:
+                    redo |= reval
+                    how.append(f"{dst}._reinit_from_xobject(...)")
+                if isinstance(a_, ast.Call) and call_name(a_) == "setattr" and len(a_.args) == 3 and norm(a_.args[2]) == dst and fl.ordered_before(st, fl.stmt(a_)) and {id(c.test) for c in fl.conds_at(fl.stmt(a_)) if c.kind == "if"} <= base:
+                    # assignment to a hybrid attribute goes through _FieldOfDressed.__set__, whose copy arm builds a new
+                    # handle on the container's field and re-initialises it (checked as its own site)
+                    redo |= reval
+                    how.append(f"setattr(..., {dst}) -> _FieldOfDressed.__set__")
             left = sorted(over - redo)
-            cx.check(not left, site, construct=f"{fn.name}: {src}.__dict__ -> {dst}.__dict__ may overwrite {sorted(over)}; re-derived afterwards: {sorted(redo)}",
-                     detail="every storage-bound attribute the copy can overwrite is rebuilt from the destination's own storage",
-                     bad_detail=f"{left} of `{dst}` may be taken over from `{src}` and are not rebuilt from `{dst}`'s own storage: the nested part keeps viewing `{src}`'s memory (reads/writes through it miss the container)")
+            cx.check(not left, site, construct=f"{fn.name}: {src}.__dict__ -> {dst}.__dict__ may bring {sorted(over)}; afterwards: {how or 'nothing'}",
+                     detail="every storage-bound attribute the copy can bring along is rebuilt from / validated against the destination's own storage",
+                     bad_detail=f"{left} of `{dst}` may be taken over from `{src}` and are neither rebuilt from nor validated against `{dst}`'s own storage: the nested part / dressed referent keeps viewing `{src}`'s memory (reads and writes through it miss the destination)")
     cx.need(sites >= 2, f"only {sites} bulk attribute copies between hybrid handles found (expected __set__ and _reinit_from_xobject)")
+
+
+def _dnf(e, pol=True):
+    """disjunctive normal form of a boolean test: list of conjuncts, each a list of (atom expr, polarity)"""
+    if isinstance(e, ast.UnaryOp) and isinstance(e.op, ast.Not):
+        return _dnf(e.operand, not pol)
+    if isinstance(e, ast.BoolOp):
+        conj = isinstance(e.op, ast.And) == pol  # And under positive polarity / Or under negative polarity
+        parts = [_dnf(v, pol) for v in e.values]
+        if conj:
+            out = [[]]
+            for p_ in parts:
+                out = [a + b for a in out for b in p_]
+            return out
+        return [c for p_ in parts for c in p_]
+    return [[(e, pol)]]
+
+
+@rule("H7", ["C18"], "assignment of a hybrid object to a by-value field skips the data copy only when the value IS the field (same buffer and same offset)")
+def h7(cx):
+    """`container.f = value` copies the struct data of `value` into the container's field unless `value` already views
+    that very memory (the field is being dressed again).  'Same memory' means same buffer AND same offset: with the
+    offset alone an object sitting at the same offset of ANOTHER buffer is taken for the field and the assignment is
+    silently dropped (seeded C18-b)."""
+    m = cx.m
+    f = m.func(f"{FD}.__set__")
+    fl = Flow(f)
+    wr = [c for c in own_nodes(f) if isinstance(c, ast.Call) and call_name(c) == "setattr" and len(c.args) == 3 and norm(c.args[0]) == "container._xobject" and norm(c.args[2]).endswith("._xobject")]
+    cx.need(len(wr) == 1, "_FieldOfDressed.__set__: the copy of the value's struct data into the container's field not found")
+    w = wr[0]
+    d = Defs(f)
+    conds = [c for c in fl.conds_at(fl.stmt(w)) if c.kind == "if"]
+    # the write happens iff all enclosing conditions hold; it is skipped iff one of them fails.  Only the innermost
+    # condition is the "already the same memory" test (the outer ones select the dressed-value arm)
+    cx.need(len(conds) >= 1, "_FieldOfDressed.__set__: the data copy is unconditional")
+    inner = conds[-1]
+    if not any("_offset" in norm(n) for n in ast.walk(inner.test)) and not any("_buffer" in norm(n) for n in ast.walk(inner.test)):
+        cx.ok(w, construct="the data copy is not skipped on any memory test", detail="always copies (re-dressing copies the bytes onto themselves)")
+        return
+    skip = _dnf(inner.test, not inner.pol)
+
+    def resolve(e):
+        k = 0
+        while isinstance(e, ast.Name) and d.single(e.id) is not None and k < 4:
+            e, k = d.single(e.id), k + 1
+        return e
+
+    def side(e):
+        t = norm(resolve(e)) if not isinstance(e, ast.Attribute) else norm(ast.Attribute(value=resolve(e.value), attr=e.attr, ctx=ast.Load()))
+        if "container" in t:
+            return "container"
+        if "value" in t:
+            return "value"
+        return None
+
+    bad = []
+    for conj in skip:
+        has_buf = has_off = False
+        for a, pol in conj:
+            if isinstance(a, ast.Compare) and len(a.ops) == 1:
+                l, r = a.left, a.comparators[0]
+                ln, rn = norm(l), norm(r)
+                same = (isinstance(a.ops[0], (ast.Is, ast.Eq)) and pol) or (isinstance(a.ops[0], (ast.IsNot, ast.NotEq)) and not pol)
+                if same and ln.endswith("_buffer") and rn.endswith("_buffer") and {side(l), side(r)} == {"container", "value"}:
+                    has_buf = True
+                if same and isinstance(a.ops[0], (ast.Eq, ast.NotEq)) and ln.endswith("_offset") and rn.endswith("_offset") and {side(l), side(r)} == {"container", "value"}:
+                    has_off = True
+        if not (has_buf and has_off):
+            bad.append((conj, has_buf, has_off))
+    if bad:
+        conj, hb, ho = bad[0]
+        txt = " and ".join((("" if pol else "not ") + short(a, 60)) for a, pol in conj)
+        cx.bad(w, construct=f"copy skipped when: {txt}", detail=f"the skip condition does not establish {'the same buffer' if not hb else ''}{' and ' if not hb and not ho else ''}{'the same offset' if not ho else ''}: a value in another buffer at the same offset (or another object of the same buffer) is taken for the field itself and the assignment is silently dropped")
+    else:
+        cx.ok(w, construct=f"copy skipped only when same buffer and same offset ({len(skip)} disjunct(s))", detail="re-dressing the field with itself is the only case without a copy")
 
 
 def _ns(e, env):
